@@ -328,6 +328,84 @@ def _mutex_key_in_host(ck, rule):
     ck.need(n >= 1, "runner_local: no lookup in the per-call mutex table found")
 
 
+_LOSSY_CALLS = {"hash", "len", "id", "ord", "abs", "int", "bool", "float", "lower", "upper", "casefold", "title", "capitalize", "swapcase",
+                "strip", "lstrip", "rstrip", "split", "rsplit", "splitlines", "partition", "rpartition", "replace", "translate",
+                "removeprefix", "removesuffix", "basename", "dirname", "splitext", "min", "max", "sum", "sorted", "set", "frozenset", "zip",
+                "islice", "truncate", "shorten", "crc32", "adler32"}
+_PRECISION_NEW = __import__("re").compile(r"\{[^{}]*:[^{}]*\.\d+[^{}]*\}")
+_PRECISION_OLD = __import__("re").compile(r"%[-+ #0]*\d*\.\d+[sr]")
+
+
+def enters_whole(fa, e, at, is_leaf, _seen=None):
+    """Does the key component recognised by `is_leaf` reach the value of `e` (at CFG node `at`) intact — through
+    locals, concatenation, formatting without a precision, joining, displays, wrapping calls — on some way that does
+    not cut it down?  Taking a slice or an element of it, formatting it with a precision (`{:.8}`, `%.8s`) or passing it
+    through something that folds or shortens text (lower, strip, split, hash, len, ...) does not count: what is left
+    no longer tells two calls apart."""
+    seen = _seen if _seen is not None else set()
+
+    def rec(x, node):
+        if is_leaf(x):
+            return True
+        if isinstance(x, ast.Name):
+            ds = [d for d in fa.df.reaching(node, x.id) if d.value is not None]
+            res = False
+            for d in ds:
+                if (d.node, d.name) in seen:
+                    continue
+                seen.add((d.node, d.name))
+                if d.kind in ("for", "unpack"):
+                    continue
+                if rec(d.value, d.node):
+                    res = True
+            return res
+        if isinstance(x, ast.NamedExpr):
+            return rec(x.value, node)
+        if isinstance(x, ast.BinOp):
+            if isinstance(x.op, ast.Mod) and isinstance(x.left, ast.Constant) and isinstance(x.left.value, str):
+                return not _PRECISION_OLD.search(x.left.value) and rec(x.right, node)
+            return rec(x.left, node) or rec(x.right, node)
+        if isinstance(x, ast.JoinedStr):
+            for v in x.values:
+                if isinstance(v, ast.FormattedValue) and rec(v.value, node):
+                    spec = v.format_spec
+                    txt = "".join(c.value for c in spec.values if isinstance(c, ast.Constant) and isinstance(c.value, str)) if isinstance(spec, ast.JoinedStr) else ""
+                    if "." not in txt:
+                        return True
+            return False
+        if isinstance(x, (ast.Tuple, ast.List, ast.Set)):
+            return any(rec(v, node) for v in x.elts)
+        if isinstance(x, ast.Starred):
+            return rec(x.value, node)
+        if isinstance(x, ast.Dict):
+            return any(rec(v, node) for v in list(x.values) + [k for k in x.keys if k is not None])
+        if isinstance(x, ast.IfExp):
+            return rec(x.body, node) or rec(x.orelse, node)
+        if isinstance(x, ast.BoolOp):
+            return any(rec(v, node) for v in x.values)
+        if isinstance(x, ast.Attribute):
+            return rec(x.value, node)
+        if isinstance(x, ast.Subscript):
+            # looked up under a key that holds it: intact; a slice / an element OF it: not
+            return not isinstance(x.slice, ast.Slice) and rec(x.slice, node)
+        if isinstance(x, ast.Call):
+            name = A.call_attr(x)
+            if name in _LOSSY_CALLS:
+                return False
+            if name == "format" and isinstance(x.func, ast.Attribute) and isinstance(x.func.value, ast.Constant) and isinstance(x.func.value.value, str) \
+                    and _PRECISION_NEW.search(x.func.value.value):
+                return False
+            args = list(x.args) + [k.value for k in x.keywords]
+            if isinstance(x.func, ast.Attribute):
+                args.append(x.func.value)
+            return any(rec(a_, node) for a_ in args)
+        if isinstance(x, (ast.ListComp, ast.GeneratorExp, ast.SetComp)):
+            return rec(x.elt, node) or any(rec(g.iter, node) for g in x.generators)
+        return False
+
+    return rec(e, at)
+
+
 def check_keying(ck, rule):
     ck.rule(rule, "every storage/cache/mutex key is built from the versioned qualified name and the argument hash; "
                   "no unversioned name flows into a key", len(KEY_SITES))
@@ -388,6 +466,15 @@ def check_keying(ck, rule):
                                 problems.append("%s(...) is not given the function reference" % callee)
                             if len(c.args) + len(c.keywords) >= 2 and "arg_hash" not in names:
                                 problems.append("%s(...) is not given the argument hash" % callee)
+            # ... and they enter it whole
+            if not problems:
+                at_ = fa.nodes(r)[0] if fa.nodes(r) else None
+                if at_ is not None and "qn" in parts_eff and not enters_whole(fa, e, at_, lambda x: isinstance(x, ast.Attribute) and x.attr == "qualified_name"):
+                    problems.append("the versioned qualified name does not enter the key whole (it is sliced, shortened or folded on the way)")
+                if at_ is not None and "ah" in parts_eff and not enters_whole(
+                        fa, e, at_, lambda x: (isinstance(x, ast.Attribute) and x.attr == "arg_hash") or
+                        (isinstance(x, ast.Name) and x.id == "arg_hash" and any(d.kind == "param" for d in fa.df.reaching(at_, "arg_hash")))):
+                    problems.append("the argument hash does not enter the key whole (it is sliced, shortened or folded on the way): calls whose hashes agree on what is left share an entry")
             bad = attrs & set(FORBIDDEN_ATTRS)
             if bad:
                 problems.append("an unversioned name (%s) flows into the key" % ", ".join(sorted(bad)))
